@@ -62,7 +62,7 @@ def Nnearests(
             RIJ = positions - positions[i]
             RIJ = remove_pbc(RIJ, hmatrix, ppp)
             RIJ_norm = np.linalg.norm(RIJ, axis=1)
-            nearests = np.argpartition(RIJ_norm, N + 1)[:N + 1]
+            nearests = np.argpartition(RIJ_norm, N)[:N + 1]
             # sort nearests based on distance
             nearests = nearests[RIJ_norm[nearests].argsort()]
             # nearests include the centered atom itself, so indexing [1:]
